@@ -199,6 +199,17 @@ func genStop(c *ctx) {
 				}
 				s.idx = 2 + c.rng.Intn(counts[s.dir]/5+1)
 			}
+			if cfg.directory && (s.who == "client" || s.who == "client-prompt") && (k/6)%2 == 0 {
+				// directory bases: every other API / prompt stop is a stop-and-delete late in the data
+				// direction, when the second root exists already: everything this transfer created - more
+				// than one subtree - has to go
+				s.del = true
+				s.dir = dirS2C
+				if cfg.upload {
+					s.dir = dirC2S
+				}
+				s.idx = counts[s.dir]*3/4 + c.rng.Intn(counts[s.dir]/8+1)
+			}
 			if pr := os.Getenv("VERIF_STOP_PROBE"); pr != "" {
 				// investigation aid: VERIF_STOP_PROBE="who dir idx" pins the stop of every case
 				fmt.Sscanf(pr, "%s %d %d", &s.who, &s.dir, &s.idx)
